@@ -29,6 +29,11 @@ type Profile struct {
 	ObjIter    bool // for k, v in obj (order-insensitive bodies only)
 	Inputs     bool // routes use path/query/body inputs
 	StrCompare bool // relational operators on strings (engines disagree; off for C01)
+	VMOnly     bool // only builtins the bytecode VM implements
+	NoObjPattern   bool // no object destructuring patterns in match
+	NoArrPattern   bool // no array destructuring patterns in match
+	NoRebindInputs bool // never `$`-redeclare input / query / headers
+	NoPatternLeak  bool // never refer to a match binding after its match expression
 	Exclude    map[string]bool
 }
 
@@ -52,6 +57,7 @@ type vinfo struct {
 	fields map[string]string // for obj
 	ro     bool              // loop counters, path/query params: never assigned by generated code
 	mut    bool              // array literal never aliased: safe for index assignment
+	pat    bool              // bound by a match pattern
 }
 
 type finfo struct {
@@ -109,7 +115,10 @@ func (g *G) event(e string)                        { g.events[e] = true }
 func (g *G) push() { g.scopes = append(g.scopes, map[string]*vinfo{}) }
 func (g *G) pop() {
 	top := g.scopes[len(g.scopes)-1]
-	for n := range top {
+	for n, v := range top {
+		if g.p.NoPatternLeak && v.pat {
+			continue
+		}
 		g.dead = append(g.dead, n)
 	}
 	sort.Strings(g.dead)
@@ -346,13 +355,21 @@ func (g *G) intExpr(d int) *Node {
 					return Call("length", g.expr("[int]", d-1))
 				}
 			case 2:
-				return Call("indexOf", g.expr("str", d-1), g.expr("str", 0))
+				if !g.p.VMOnly {
+					return Call("indexOf", g.expr("str", d-1), g.expr("str", 0))
+				}
 			case 3:
-				return Call("abs", g.expr("int", d-1))
+				if !g.p.VMOnly {
+					return Call("abs", g.expr("int", d-1))
+				}
 			case 4:
-				return Call(g.pick("mm", []string{"min", "max"}), g.expr("int", d-1), g.expr("int", d-1))
+				if !g.p.VMOnly {
+					return Call(g.pick("mm", []string{"min", "max"}), g.expr("int", d-1), g.expr("int", d-1))
+				}
 			case 5:
-				return Call("parseInt", g.pick2("pi", Str("42"), Str(" -17 "), Str("x9"), Call("toString", g.expr("int", d-1))))
+				if !g.p.VMOnly {
+					return Call("parseInt", g.pick2("pi", Str("42"), Str(" -17 "), Str("x9"), Call("toString", g.expr("int", d-1))))
+				}
 			}
 		}
 	case 7:
@@ -400,13 +417,17 @@ func (g *G) strExpr(d int) *Node {
 	case 0:
 		return Call(g.pick("ul", []string{"upper", "lower", "trim"}), g.expr("str", d-1))
 	case 1:
-		return Call("toString", g.expr(g.pick("tst", []string{"int", "bool", "int", "str"}), d-1))
+		if !g.p.VMOnly {
+			return Call("toString", g.expr(g.pick("tst", []string{"int", "bool", "int", "str"}), d-1))
+		}
 	case 2:
 		return Call("replace", g.expr("str", d-1), g.expr("str", 0), g.expr("str", 0))
 	case 3:
 		return Call("substring", g.expr("str", d-1), Int(int64(g.n("ss", 3))), Int(int64(g.n("se", 6))))
 	case 4:
-		return Call("charAt", g.expr("str", d-1), Int(int64(g.n("ci", 4))))
+		if !g.p.VMOnly {
+			return Call("charAt", g.expr("str", d-1), Int(int64(g.n("ci", 4))))
+		}
 	case 5:
 		if g.p.Arrays {
 			return Call("join", g.expr(g.pick("jt", []string{"[int]", "[str]"}), d-1), g.expr("str", 0))
@@ -450,6 +471,9 @@ func (g *G) boolExpr(d int) *Node {
 		return Un("!", g.expr("bool", d-1))
 	case 7:
 		if g.p.Builtins {
+			if g.p.VMOnly {
+				return Call("contains", g.expr("str", d-1), g.expr("str", 0))
+			}
 			return Call(g.pick("sb", []string{"contains", "startsWith", "endsWith"}), g.expr("str", d-1), g.expr("str", 0))
 		}
 	case 8:
@@ -468,7 +492,7 @@ func (g *G) boolExpr(d int) *Node {
 }
 
 func (g *G) arrIntExpr(d int) *Node {
-	if !g.p.Builtins {
+	if !g.p.Builtins || g.p.VMOnly {
 		return g.leaf("[int]")
 	}
 	switch g.n("ak", 6) {
@@ -538,7 +562,7 @@ func (g *G) matchExpr(ty string, d int) *Node {
 		}
 		if g.pct("mguard", 50) {
 			g.push()
-			g.scopes[len(g.scopes)-1]["mv"] = &vinfo{ty: "int", ro: true}
+			g.scopes[len(g.scopes)-1]["mv"] = &vinfo{ty: "int", ro: true, pat: true}
 			m.C = append(m.C, N("mcase", NS("pvar", "mv"), Bin(g.pick("mg", []string{">", "<", "=="}), Var("mv"), Int(int64(g.n("mgv", 8)))), g.expr(ty, d-1)))
 			g.pop()
 			g.event("match-guard")
@@ -553,32 +577,32 @@ func (g *G) matchExpr(ty string, d int) *Node {
 		m.C = append(m.C, N("mcase", N("plit", Str(g.pick("ps", strPool[:6]))), none, g.expr(ty, d-1)))
 		m.C = append(m.C, N("mcase", N("plit", Str(g.pick("ps2", strPool[:6]))), none, g.expr(ty, d-1)))
 		g.push()
-		g.scopes[len(g.scopes)-1]["ms"] = &vinfo{ty: "str", ro: true}
+		g.scopes[len(g.scopes)-1]["ms"] = &vinfo{ty: "str", ro: true, pat: true}
 		m.C = append(m.C, N("mcase", NS("pvar", "ms"), none, g.expr(ty, d-1)))
 		g.pop()
 	case 2: // array destructuring
-		if !g.p.Arrays {
+		if !g.p.Arrays || g.p.NoArrPattern {
 			return g.leaf(ty)
 		}
 		m.C = append(m.C, g.expr("[int]", d-1))
 		m.C = append(m.C, N("mcase", N("parr"), none, g.expr(ty, d-1)))
 		g.push()
-		g.scopes[len(g.scopes)-1]["h"] = &vinfo{ty: "int", ro: true}
+		g.scopes[len(g.scopes)-1]["h"] = &vinfo{ty: "int", ro: true, pat: true}
 		m.C = append(m.C, N("mcase", &Node{K: "parr", C: []*Node{NS("pvar", "h")}}, none, g.expr(ty, d-1)))
-		g.scopes[len(g.scopes)-1]["rest"] = &vinfo{ty: "[int]", ro: true}
+		g.scopes[len(g.scopes)-1]["rest"] = &vinfo{ty: "[int]", ro: true, pat: true}
 		m.C = append(m.C, N("mcase", &Node{K: "parr", S: "rest", C: []*Node{NS("pvar", "h"), N("plit", Int(int64(g.n("pa", 4))))}}, none, g.expr(ty, d-1)))
 		m.C = append(m.C, N("mcase", &Node{K: "parr", S: "rest", C: []*Node{NS("pvar", "h")}}, none, g.expr(ty, d-1)))
 		g.pop()
 		m.C = append(m.C, N("mcase", N("pwild"), none, g.expr(ty, d-1)))
 		g.event("match-array-pattern")
 	case 3: // object destructuring
-		if !g.p.Objects {
+		if !g.p.Objects || g.p.NoObjPattern {
 			return g.leaf(ty)
 		}
 		m.C = append(m.C, g.expr("obj", 0))
 		g.push()
-		g.scopes[len(g.scopes)-1]["s"] = &vinfo{ty: "str", ro: true}
-		g.scopes[len(g.scopes)-1]["nn"] = &vinfo{ty: "int", ro: true}
+		g.scopes[len(g.scopes)-1]["s"] = &vinfo{ty: "str", ro: true, pat: true}
+		g.scopes[len(g.scopes)-1]["nn"] = &vinfo{ty: "int", ro: true, pat: true}
 		m.C = append(m.C, N("mcase", N("pobj", NS("pfield", "s"), NS("pfield", "n", NS("pvar", "nn"))), none, g.expr(ty, d-1)))
 		g.pop()
 		m.C = append(m.C, N("mcase", N("pobj", NS("pfield", "n", N("plit", Int(int64(g.n("po", 6)))))), none, g.expr(ty, d-1)))
@@ -623,6 +647,9 @@ func (g *G) declStmt() *Node {
 	case r < 24+g.p.IllTyped/2:
 		names := make([]string, 0, len(cur))
 		for n := range cur {
+			if g.p.NoRebindInputs && (n == "input" || n == "query" || n == "headers") {
+				continue
+			}
 			names = append(names, n)
 		}
 		sort.Strings(names)
